@@ -306,6 +306,16 @@ func (gen *Generator) GenerateDefmac(args []Sexp, orig Sexp) error {
 		return fmt.Errorf("defmac name must be symbol")
 	}
 
+	// GenerateCallBySymbol compiles these names itself, before it looks
+	// at the macro table: a macro of such a name could never be called.
+	switch sym.name {
+	case "and", "or", "cond", "quote", "def", "mdef", "fn", "defn", "begin",
+		"let", "letseq", "assert", "defmac", "macexpand", "syntaxQuote",
+		"include", "for", "set", "break", "continue", "newScope", "package",
+		"return", "_ls":
+		return fmt.Errorf("'%s' is a special form, cannot define macro with same name.", sym.name)
+	}
+
 	_, isBuiltin := gen.env.builtins[sym.number]
 	if isBuiltin {
 		return fmt.Errorf("'%s' is already a built-in function, cannot define macro with same name.", sym.name)
